@@ -617,7 +617,8 @@ def coh_pos(ctx, variant, dim, tol, pre, next, via):
         finish(ctx, cs, S, "pos", pos=pos2)
 
 
-@contract(P, "CondSRF.set_pos[mesh_type]/equals-fresh-object", params=_params(VQ, [{}], pre=PRE[1:2]),
+@contract(P, "CondSRF.set_pos[mesh_type]/equals-fresh-object",
+          params=_params(VQ, [{}], pre=PRE[1:2]) + _params(VQ[:1], [{}], pre=PRE[1:2], dims=(2,)),
           functions=FN_COH, nsamples=2, search=20)
 def coh_mesh(ctx, variant, dim, pre, next):
     """same axes, other mesh type: stored fields are dropped and recomputed"""
